@@ -25,7 +25,7 @@ LEVEL = "exploration"
 BATCH = 10
 TIMEOUT = 120
 USES_LAB = False
-REQUIRED_OBS = ["steps_checked", "invariant_evaluations", "op_remove", "op_set_allowed", "op_dedupe", "extend_runs", "op_add_file"]
+REQUIRED_OBS = ["steps_checked", "invariant_evaluations", "op_remove", "op_set_allowed", "op_dedupe", "extend_runs", "op_add_file", "allowed_spelling_cases"]
 RULE = ("random edit histories (add instance / add string / add from file, remove by index, index list, instance, instance "
         "list, set allowed, set required, find+remove duplicates, append depletion and desorption reactions, reindex) of length "
         "<= 14 (quick) / 120 (thorough) over alphabets of 4-8 species; plus `naunet extend` runs on generated files; "
@@ -114,6 +114,8 @@ def gen_cases(tier):
             cases.append(make_extend(r))
         else:
             cases.append(make_history(r, r.randint(3, 14) if tier == "quick" else r.randint(5, 120)))
+    for _ in range(24 if tier == "quick" else 600):
+        cases.append(make_allowed_spelling(random.Random(rng.getrandbits(64))))
     if tier == "thorough":
         cases.append({"kind": "repo_tests"})
     return cases
@@ -470,6 +472,66 @@ def run_extend(case, ctx, obs, viol):
         viol.append(violation("extend_order", "kept reactions are not in file order"))
 
 
+SPELL_CLASSES = [["e-", "E-"], ["GRAIN0", "GRAIN"], ["GRAIN-", "GRAIN0-"], ["GRAIN+", "GRAIN0+"]]
+
+
+def spell_class(n):
+    for c in SPELL_CLASSES:
+        if n in c:
+            return c[0]
+    return n
+
+
+def make_allowed_spelling(rng):
+    """The allowed list names a species under one of its spellings (GRAIN0, e-), the reactions use another (GRAIN, E-): the filter goes by
+    species identity, as every other operation does."""
+    plain = ["H", "H+", "C", "C+", "O", "CO", "He", "He+"]
+    rs = []
+    def pick(c):
+        return rng.choice(c)
+    for i in range(rng.randint(4, 10)):
+        k = rng.random()
+        if k < 0.35:
+            ion = rng.choice(["H+", "C+", "He+"])
+            rs.append({"reactants": [ion, pick(SPELL_CLASSES[2])], "products": [ion[:-1], pick(SPELL_CLASSES[1])]})
+        elif k < 0.55:
+            rs.append({"reactants": [pick(SPELL_CLASSES[0]), pick(SPELL_CLASSES[1])], "products": [pick(SPELL_CLASSES[2])]})
+        elif k < 0.75:
+            ion = rng.choice(["H+", "C+", "He+"])
+            rs.append({"reactants": [ion, pick(SPELL_CLASSES[0])], "products": [ion[:-1]]})
+        else:
+            rs.append({"reactants": [rng.choice(plain), rng.choice(plain)], "products": [rng.choice(plain)]})
+    classes = sorted({spell_class(n) for r in rs for n in r["reactants"] + r["products"]})
+    allowed_cls = rng.sample(classes, rng.randint(max(1, len(classes) - 3), len(classes)))
+    allowed = [rng.choice(next((c for c in SPELL_CLASSES if c[0] == a), [a])) for a in allowed_cls]
+    return {"kind": "allowed_spelling", "rs": rs, "allowed": allowed, "set_later": rng.random() < 0.5}
+
+
+def run_allowed_spelling(case, ctx, obs, viol):
+    from naunet.network import Network
+    from naunet.reactions.reaction import Reaction
+    from naunet.reactiontype import ReactionType as RT
+    from naunet.species import Species
+    Species.reset()
+    objs = [Reaction(list(r["reactants"]), list(r["products"]), alpha=1.0 + i, reaction_type=RT.GAS_TWOBODY) for i, r in enumerate(case["rs"])]
+    try:
+        if case["set_later"]:
+            net = Network(objs)
+            net.allowed_species = list(case["allowed"])
+        else:
+            net = Network(objs, allowed_species=list(case["allowed"]))
+    except Exception as e:
+        viol.append(violation("edit_raised", f"allowed list {case['allowed']}: {type(e).__name__}: {e}"))
+        return
+    obs["allowed_spelling_cases"] += 1
+    acl = {spell_class(a) for a in case["allowed"]}
+    want = [1.0 + i for i, r in enumerate(case["rs"]) if all(spell_class(n) in acl for n in r["reactants"] + r["products"])]
+    got = [r.alpha for r in net.reaction_list]
+    if got != want:
+        viol.append(violation("allowed_filter_differs", f"allowed {case['allowed']}: kept reactions (by alpha) {got}, by species identity {want}; reactions "
+                              f"{[(r['reactants'], r['products']) for r in case['rs']]}"[:600]))
+
+
 def run_repo_tests(case, ctx, obs, viol):
     log = ctx.fresh_dir("t") / "contracts.json"
     env = dict(os.environ, VERIF_CONTRACT_LOG=str(log))
@@ -494,6 +556,9 @@ def run_case(case, ctx):
         run_extend(case, ctx, obs, viol)
         nontrivial = bool(case["remove"] or case["reduce"] or case["dedupe"])
         sample = {"extend": {k: case[k] for k in ("reduce", "remove", "dedupe", "depletion", "desorption")}, "n_reactions": len(case["rs"])}
+    elif case["kind"] == "allowed_spelling":
+        run_allowed_spelling(case, ctx, obs, viol)
+        nontrivial, sample = True, {"allowed": case["allowed"], "n_reactions": len(case["rs"])}
     else:
         run_repo_tests(case, ctx, obs, viol)
         nontrivial, sample = True, {"repo_tests_under_contracts": True}
